@@ -422,6 +422,12 @@ func FixTextAlphabet(f *rm.Field, o Opts) [][]byte {
 	// non-canonical members
 	add(dtext(3, n+1))
 	add(append(dtext(5, n+2), 0xE4, 0xB8, 0xAD)) // N+5, cutting may split a rune
+	if n >= 1 {
+		add(append(dtext(9, n-1), 0xE4, 0xB8, 0xAD)) // the cut falls inside a multi-byte rune (byte N is a continuation byte)
+	}
+	if n >= 2 {
+		add(append(dtext(13, n-2), 0xE4, 0xB8, 0xAD)) // the cut falls before the rune's last byte
+	}
 	if n >= 2 {
 		if f.Left {
 			add([]byte{pad, other})
@@ -674,4 +680,45 @@ func NilDyn(v *rm.Value) *rm.Value {
 	c := v.Clone()
 	c.Fields[c.Type.DynField()] = rm.NilStruct()
 	return c
+}
+
+// Huge builds a variant of base D whose encoding exceeds 65,536 bytes where the type allows it
+// (a 32-bit-prefixed text of 70,000 bytes, or a list of 20,000 elements); ok=false if no field can grow that far.
+func Huge(t *rm.Type) (*rm.Value, bool) {
+	v := Distinct(t)
+	return v, hugeify(v)
+}
+
+func hugeify(v *rm.Value) bool {
+	t := v.Type
+	for i := range t.Fields {
+		f := &t.Fields[i]
+		switch f.Kind {
+		case "lentext":
+			if rm.MaxOf(f.Prefix) >= 70000 {
+				v.Fields[i] = rm.Text(rolling(i, 70000))
+				return true
+			}
+		case "list":
+			if rm.MaxOf(f.Count) >= 20000 {
+				l := &rm.Value{K: rm.VList}
+				for j := 0; j < 20000; j++ {
+					if f.Elem.Kind == "struct" {
+						l.Elems = append(l.Elems, rm.Zero(t.Proto.Type(f.Elem.Type)))
+					} else if f.Elem.Kind == "lentext" {
+						l.Elems = append(l.Elems, rm.Text(rolling(j, 3)))
+					} else {
+						l.Elems = append(l.Elems, elemValue(f.Elem, i, j))
+					}
+				}
+				v.Fields[i] = l
+				return true
+			}
+		case "struct", "dyn":
+			if !v.Fields[i].Nil && hugeify(v.Fields[i]) {
+				return true
+			}
+		}
+	}
+	return false
 }
